@@ -2,9 +2,10 @@ use vnd::{Api, Opts, corpus, read_log};
 fn main() {
     let thorough = std::env::args().any(|a| a == "thorough");
     let verbose = std::env::args().any(|a| a == "-v");
-    let only: Option<String> = std::env::args().skip(1).find(|a| a != "thorough" && a != "-v");
+    let only: Option<String> = std::env::args().skip(1).find(|a| a != "thorough" && a != "-v" && a != "extra");
     let t0 = std::time::Instant::now();
-    let docs = corpus(thorough);
+    let mut docs = corpus(thorough);
+    if std::env::args().any(|a| a == "extra") { docs = vnd::extra(thorough); }
     eprintln!("corpus built in {:?}: {} docs", t0.elapsed(), docs.len());
     for d in &docs {
         if let Some(o) = &only { if !d.name.contains(o.as_str()) { continue; } }
